@@ -200,6 +200,13 @@ def main():
                 problems.append(("audit", "axioms of %s could not be determined" % n))
             elif ax is not None and not set(ax) <= ALLOWED_AXIOMS:
                 problems.append(("audit", "%s depends on %s" % (n, ax)))
+        # thorough tier: independent re-check of the compiled theorem module
+        leancheck = None
+        if tier == "thorough" and build_ok:
+            rcl, outl, errl = sh(["lake", "env", "leanchecker", "StarModel.Props." + pid], cwd=LEAN, timeout=3600)
+            leancheck = rcl == 0
+            if rcl != 0:
+                problems.append(("audit", "leanchecker rejected StarModel.Props.%s: %s" % (pid, short((outl + errl)[-400:], 400))))
         rc, clog = cargo_build()
         harness_ok = rc == 0
         if not harness_ok:
@@ -296,6 +303,7 @@ def main():
             "trusted_base": trusted,
             "theorems": [{"name": n, "axioms": axioms.get(n)} for n in names],
             "clauses": prop.get("clauses", {}),
+            "leanchecker_ok": leancheck,
             "params_from_source": {"regenerated": True, "changed_this_run": params.get("changed"), "misses": params.get("misses")},
             "evaluations": total_cases,
             "distinct_nontrivial": len(distinct) + oracle.get("stats", {}).get("oracle.nontrivial", 0),
